@@ -20,6 +20,29 @@ def gen_scripts(ctx, sd, maxlen, maxcalls, local, close, tag):
     return r.tagged("SCRIPT"), r
 
 
+def gen_embargo(ctx, sd, ncalls, maxpump):
+    """Scripts of spec/rpc/RpcEmbargo.tla (both roles) + the design check: with the embargo every behaviour delivers the
+    pipelined calls in order; without it (control) TLC must find an InOrder violation."""
+    out, states, gen = [], 0, 0
+    for side in ("caller", "callee"):
+        cfg = "Emb_%s.cfg" % side
+        with open(os.path.join(sd, cfg), "w") as f:
+            f.write('SPECIFICATION Spec\nCONSTANTS\n  Side = "%s"\n  NCalls = %d\n  Embargo = TRUE\n  MaxPump = %d\n'
+                    'INVARIANTS TypeOK InOrder NoDup EchoBehind Emit\nCHECK_DEADLOCK FALSE\n' % (side, ncalls, maxpump))
+        r = tlc.run(ctx, sd, "RpcEmbargo", cfg=cfg, workers=4, timeout=600, heap="4g")
+        out += r.tagged("SCRIPT")
+        states += r.distinct
+        gen += r.generated
+    cfg = "Emb_control.cfg"
+    with open(os.path.join(sd, cfg), "w") as f:
+        f.write('SPECIFICATION Spec\nCONSTANTS\n  Side = "caller"\n  NCalls = %d\n  Embargo = FALSE\n  MaxPump = %d\n'
+                'INVARIANTS InOrder\nCHECK_DEADLOCK FALSE\n' % (ncalls, maxpump))
+    r = tlc.run(ctx, sd, "RpcEmbargo", cfg=cfg, workers=1, timeout=600, heap="4g", allow_violation=True)
+    if r.ok or r.invariant != "InOrder":
+        raise Inconclusive("RpcEmbargo control (no embargo) did not violate InOrder: the model is vacuous")
+    return out, states, gen
+
+
 def run_scripts(ctx, drv, scripts, tf):
     """Runs scripts through rpcdrv (restarting after hangs / deaths); returns (violations-by-driver, summary)."""
     sf = ctx.path("scripts.ndjson")
@@ -72,10 +95,19 @@ def run_scripts(ctx, drv, scripts, tf):
     return found, {"scripts": len(scripts), "events": events}
 
 
+# every event kind the trace specification has an action for; anything else in a trace is an error of the machinery
+KNOWN_EVENTS = {"reset", "msg", "app-start", "app-return", "app-cancelled", "shutdown", "l-handle", "l-release", "l-result", "l-bootstrap",
+                "l-call", "l-pcall", "reported", "fault", "transport-closed", "done", "end", "peer-deliver", "peer-echo", "view",
+                "quiesce", "close", "close-returned"}
+MAX_REJECTED = 60
+
+
 def validate(ctx, sd, tf, classes, other_sink=None):
-    """TLC validation with removal of rejected executions.  Returns (list of (cls, event, execution), states)."""
+    """TLC validation with removal of rejected executions.  Returns (list of (cls, event, execution, pos), states).
+    Every execution is either accepted or listed; info["accepted"] counts the accepted ones."""
     with open(tf) as f:
         lines = f.readlines()
+    total = sum(1 for x in lines if '"ev":"reset"' in x)
     rej = []
     states = 0
     while lines:
@@ -94,11 +126,15 @@ def validate(ctx, sd, tf, classes, other_sink=None):
         end = next((i for i in range(start + 1, len(lines)) if '"ev":"reset"' in lines[i]), len(lines))
         ex = [json.loads(x) for x in lines[start:end]]
         off = ex[min(idx - start, len(ex) - 1)]
+        if off["ev"] not in KNOWN_EVENTS:
+            raise Inconclusive("the trace contains an event the trace specification has no action for: %s" % json.dumps(off))
         key = off["ev"] + (":" + off["m"] if off["ev"] == "msg" else "")
         rej.append((key, off, ex, idx - start))
         del lines[start:end]
-        if len(rej) >= 12:
-            break
+        if len(rej) >= MAX_REJECTED:
+            raise Inconclusive("%d executions rejected by RpcTrace (first: %s): not a single defect but a drift between driver and "
+                               "trace specification" % (len(rej), json.dumps(brief(rej[0][1]))))
+    ctx.cover(executions_accepted=total - len(rej), executions_total=total)
     return rej, states
 
 
